@@ -264,6 +264,57 @@ func partA(o Opts, res *Result, zctx *zed.Context, U []UVal) (map[bool]matrix, e
 			}
 		}
 	}
+	// compare(a,b) against the relational operators on the number universe:
+	// compare == 0 <=> a == b (NaN excepted: IEEE equality), compare < 0 <=> a < b, compare > 0 <=> a > b
+	if m := base[true]; m != nil {
+		var nums []int
+		for i := range U {
+			if !U[i].Val.IsNull() && zed.IsNumber(U[i].Val.Type().ID()) {
+				nums = append(nums, i)
+			}
+		}
+		var recs []zed.Value
+		for _, i := range nums {
+			for _, j := range nums {
+				r, err := makeRecord(zctx, []string{"a", "b"}, []zed.Value{U[i].Val, U[j].Val})
+				if err != nil {
+					return nil, err
+				}
+				recs = append(recs, r)
+			}
+		}
+		out, err := RunQueryValues("yield [a==b, a<b, a>b, a<=b, a>=b, a!=b]", zctx, recs)
+		if err != nil || len(out) != len(recs) {
+			res.Fail(Failure{Kind: "oracle", Sig: "relops-vs-compare:run", Detail: fmt.Sprintf("relational operators over all number pairs: err=%v, %d outputs for %d inputs", err, len(out), len(recs)),
+				Replay: map[string]any{"query": "yield [a==b, a<b, a>b, a<=b, a>=b, a!=b]"}, Expected: fmt.Sprint(len(recs)), Observed: fmt.Sprint(len(out))})
+		} else {
+			res.CountN("relops_number_pairs", len(recs))
+			idx := 0
+			isNaN := func(u *UVal) bool { return u.IsFloat && u.Val.Float() != u.Val.Float() }
+			for _, i := range nums {
+				for _, j := range nums {
+					c := m[i][j]
+					eq := c == 0
+					if isNaN(&U[i]) || isNaN(&U[j]) {
+						eq = false
+					}
+					want := fmt.Sprintf("[%v,%v,%v,%v,%v,%v]", eq, c < 0, c > 0, c <= 0, c >= 0, !eq)
+					res.Evaluations++
+					if out[idx] != want {
+						sig := "relops-vs-compare:" + classes(&U[i], &U[j])
+						if roundingShape(&U[i], &U[j]) {
+							sig = "relops-vs-compare:int-beyond-2^53-meets-float"
+						}
+						res.Fail(Failure{Kind: "oracle", Sig: sig,
+							Detail:   fmt.Sprintf("a=%s b=%s: [a==b, a<b, a>b, a<=b, a>=b, a!=b] = %s but compare(a,b) = %d demands %s", U[i].Text, U[j].Text, out[idx], c, want),
+							Replay:   map[string]any{"query": "yield [a==b, a<b, a>b, a<=b, a>=b, a!=b]", "a": U[i].Text, "b": U[j].Text},
+							Expected: want, Observed: out[idx]})
+					}
+					idx++
+				}
+			}
+		}
+	}
 	// lake comparators on records {k:v} (missing k for error("missing")): total preorder
 	// and agreement with the value comparison on the key.
 	type lakeCmp struct {
@@ -424,7 +475,7 @@ func c06(o Opts) error {
 	if err := os.WriteFile(o.Out+"/cases.v", []byte(sb.String()), 0644); err != nil {
 		return err
 	}
-	res.Rule = "pairs/triples: every ordered pair and triple of the curated universe (all types, boundary numbers, nulls of each type, missing) under 2 value comparators, compare(), the descending and the 4 lake comparators; sort/merge cases: generated record sequences x 1..3 keys x asc/desc x nulls first/last x -r x memory limits; a sort case is non-trivial when it has >= 2 distinct and >= 1 equal key pairs, distinct = distinct (keys, flags, key columns, run split)"
+	res.Rule = "pairs/triples: every ordered pair and triple of the curated universe (all types, boundary numbers, nulls of each type, missing) under 2 value comparators, compare(), the descending and the 4 lake comparators; sort/merge cases: generated record sequences x 1..3 keys x asc/desc x nulls first/last x -r x memory limits (key columns mix integers beyond 2^53 with floats freely); relational operators vs compare() on all number pairs; a sort case is non-trivial when it has >= 2 distinct and >= 1 equal key pairs, distinct = distinct (keys, flags, key columns, run split)"
 	res.Write(o.Out)
 	return nil
 }
